@@ -85,6 +85,16 @@ def build(ctx, rnd, gens):
             step2 = anncases.step_of(b1, rnd, order, dict(base, skip_unrecognised=True) if dot is None else base, must=True)
             step2["must"]["data.unknownext"] = dot is not None
             add(unk, [step2], cls="unrecognised-skipped", dot=dot, position=pos)
+        # a file recognised by its NAME next to an extensionless file of unknown type: a usage error whatever order the tool
+        # visits them in (the order follows the string hash seed: fresh interpreters)
+        if dot is None:
+            mk = good + [{"name": "Makefile", "kind": "code", "style_name": "python"}, {"name": "Dockerfile", "kind": "code", "style_name": "python"},
+                         {"name": "NOTES", "kind": "code", "style_name": None, "unrecognised": True}]
+            for hs in (0, 1, 2, 3, 5, 8):
+                order = ["Makefile", "NOTES", "Dockerfile"] + names[:1]
+                step = dict(anncases.step_of(b1, rnd, order, base, must=False), hashseed=hs)
+                step["expect"] = "usage"
+                add(mk, [step], cls="name-recognised-next-to-unrecognised", dot=dot, hashseed=hs)
         # a project template that renders everything: holders and contributors with '<', '>', '&' go through unharmed
         step = anncases.step_of(b1, rnd, names, dict(base, template="full"), must=True)
         step["req"]["holders"] = ["R&D Team <rd@example.org>"]
